@@ -1,5 +1,5 @@
 (* C27 — URIs survive serialisation and agree with net/url. *)
-From FH Require Import Model.Base Gen.GenC27 Model.IPv6 Model.PathNorm Model.Uri Proof.UriProof.
+From FH Require Import Model.Base Gen.GenC27 Model.IPv6 Model.PathNorm Model.Uri Spec.NetUrl Proof.UriProof Proof.NetUrlProof.
 Open Scope N_scope.
 
 (* For any URI fasthttp parses successfully (path normalisation on; any host argument, in particular none = an absolute URI)
@@ -31,6 +31,23 @@ Proof.
 Qed.
 Print Assumptions C27_query_args_preserved.
 
+(* For every "http://" / "https://" URI (scheme in any letter case) that both fasthttp and net/url accept — net/url.Parse as
+   formalised in Spec/NetUrl.v, which the harness compares with the real net/url on every generated URI — fasthttp's host is
+   net/url's host lower-cased (ASCII) and the raw query strings are equal. *)
+Theorem C27_host_query_vs_neturl : forall S tail u s h q,
+  wf_bytes (S ++ uStrColonSlashSlash ++ tail) ->
+  (map nu_lower S = s2b "http" \/ map nu_lower S = s2b "https") ->
+  parse [] (S ++ uStrColonSlashSlash ++ tail) = UOk u ->
+  nu_parse (S ++ uStrColonSlashSlash ++ tail) = Some (s, h, q) ->
+  Host u = map nu_lower h /\ QueryString u = q.
+Proof. exact host_query_vs_neturl. Qed.
+Print Assumptions C27_host_query_vs_neturl.
+
+(* its core: on any authority both parseHost functions, when they accept, return the same bytes *)
+Theorem C27_parseHost_vs_neturl : forall hp ph h, wf_bytes hp -> parseHost hp = UOk ph -> nu_parse_host hp = Some h -> ph = h.
+Proof. exact host_agree. Qed.
+Print Assumptions C27_parseHost_vs_neturl.
+
 (* the building blocks *)
 Theorem C27_quote_then_decode : forall p rest, decodeNoPlus_loop (Q p ++ rest) = p ++ decodeNoPlus_loop rest.
 Proof. exact loop_quote. Qed.
@@ -49,6 +66,12 @@ Example C27_guard_needed :
   | UOk u => Host u = s2b "a%b" /\ FullURI u = s2b "http://a%b/" /\ parse [] (FullURI u) = UErr ErrEscape
   | UErr _ => False
   end.
+Proof. vm_compute. repeat split; reflexivity. Qed.
+
+Example C27_ex_neturl :
+  nu_parse (s2b "HTTP://User:Pw@EXAMPLE.com:80/a/./b?x=1&y=%zz#F#g") = Some (s2b "http", s2b "EXAMPLE.com:80", s2b "x=1&y=%zz")
+  /\ nu_parse (s2b "http://[::1]]:80/") = Some (s2b "http", s2b "[::1]]:80", []) /\ nu_parse (s2b "http://h/%zz") = None /\ nu_parse (s2b "http://H%C3%A9?") = Some (s2b "http", h "48c3a9", [])
+  /\ nu_parse (s2b "//h/p?q") = Some ([], s2b "h", s2b "q") /\ nu_parse (s2b "a:b:c") = Some (s2b "a", [], []) /\ nu_parse (s2b "a/b:c") = Some ([], [], []) /\ nu_parse (s2b "b:c/") = Some (s2b "b", [], []).
 Proof. vm_compute. repeat split; reflexivity. Qed.
 
 Example C27_ex :
